@@ -168,7 +168,7 @@ def write_mapping(fn, facts, adders, getters, generic_param):
             continue
         X = ".".join(fields_of(gpth))
         full = base + ".".join(fields_of(lp))
-        if X in out and out[X] != (full, adders.get(via)):
+        if X in out and tuple(out[X][:2]) != (full, adders.get(via)):
             problems.append((node.get("l", 0), "generic field %s is stored twice (%s and %s)" % (X, out[X][0], full)))
         out[X] = (full, adders.get(via), node.get("l", 0), via)
     return out, problems
